@@ -296,44 +296,60 @@ def named_axes_case(k):
 
 
 def optional_angle_case():
-    """Rotate by an angle function whose only parameter is OPTIONAL (has a default): the same object is asked with two
-    different parameter batches; every answer is the inverse image at its own row"""
-    cname = "contains/Rotate[optional t](Circle)/two_queries"
+    """Rotate (of an ARBITRARY domain) by a rotation-matrix function whose only parameter is OPTIONAL (has a default):
+    the same object is asked with two different parameter batches; the inner domain must be asked about the inverse
+    image at each row's own parameter value, and its answer is returned"""
+    cname = "abstract/Rotate[optional t]/two_queries"
 
     def body(env):
         L = env.L
-        inner = SH.circle(env, tag="A")
-        env.assume(inner.oset.positive({}, L))
-        w = env.tensor("rotw1", ())
-        wv = SH.elems(env, w)[0]
+        X = tp.spaces.R2("x")
+        w = env.const(0.5)
+        wv = 0.5 if not env.symbolic else L.num(0.5)
 
-        def angle(t=env.const([[0.0]])):
-            return w * t
+        # rotation matrix as a RATIONAL function of tau = w*t (c = (1-tau^2)/(1+tau^2), s = 2 tau/(1+tau^2)):
+        # exact in the solver and replayable with floats
+        def rot(t=env.const([[0.0]])):
+            tau = w * t
+            den = 1 + tau * tau
+            c, s_ = (1 - tau * tau) / den, 2 * tau / den
+            return torch.stack((torch.cat((c, -s_), dim=1), torch.cat((s_, c), dim=1)), dim=1)
 
-        dom = tp.domains.Rotate.from_angles(inner.dom, angle)
         out = []
+        dom = None
         for qi in range(2):
-            P, rows = SH.params(env, [("t", 1)], 1 + qi, tag="prm%d" % qi)
             n = 1 + qi
+            inner = SH.StubDomain(X, env, "s%d" % qi, n)
+            if dom is None:
+                dom = tp.domains.Rotate(inner, rot)
+            else:
+                dom.domain = inner  # same Rotate object, another (arbitrary) inner answer table of the right size
+            P, rows = SH.params(env, [("t", 1)], n, tag="prm%d" % qi)
             qt = env.tensor("q%d" % qi, (n, 2))
             q = SH.elems(env, qt)
-            res = dom._contains(Points(qt, tp.spaces.R2("x")), P)
+            res = dom._contains(Points(qt, X), P)
             want = []
             for i in range(n):
-                c, s_ = L.cossin(wv * rows[i]["t"][0])
+                tau = wv * rows[i]["t"][0]
+                c, s_ = L.div(1 - tau * tau, 1 + tau * tau), L.div(2 * tau, 1 + tau * tau)
                 x, y = q[2 * i], q[2 * i + 1]
-                want.append(inner.oset.closure([c * x + s_ * y, -s_ * x + c * y], {}, L, 0))
-            out.append(dict(res=res, want=want, n=n, shape=list(res.shape)))
+                want.append([c * x + s_ * y, -s_ * x + c * y])
+            out.append(dict(res=res, want=want, n=n, shape=list(res.shape), asked=[a_[0] for a_ in inner.asked], ans=inner.f_in))
         return dict(q=out)
 
     def goals(o, L, env):
         for qi, q in enumerate(o["q"]):
             yield "one_truth_value_per_row[query%d]" % qi, q["shape"] == [q["n"], 1]
+            yield "inner_asked_once[query%d]" % qi, len(q["asked"]) == 1
+            for t in q["asked"]:
+                for i in range(q["n"]):
+                    for c in range(2):
+                        yield "inverse_image[query%d,row%d,%d]" % (qi, i, c), L.eq(t[i][c], q["want"][i][c])
             if q["shape"] == [q["n"], 1]:
-                for i, (r, w) in enumerate(zip(q["res"], q["want"])):
-                    yield "contains_iff_inverse_image[query%d,row%d]" % (qi, i), L.Iff(r[0], w)
+                for i in range(q["n"]):
+                    yield "answer_passed_through[query%d,row%d]" % (qi, i), L.Iff(q["res"][i][0], q["ans"][i])
 
-    return Case(cname, body, goals, family="contains/Rotate[optional t]", timeout_ms=60000)
+    return Case(cname, body, goals, family="abstract/Rotate[optional t]", timeout_ms=60000)
 
 
 def point_case(k):
